@@ -259,7 +259,7 @@ class StringDataEncoding(DataEncoding):
         elif self.discrete_lookup_length:
             for discrete_lookup in self.discrete_lookup_length:
                 buflen_bits = discrete_lookup.evaluate(packet)
-                if buflen_bits:
+                if buflen_bits is not None:
                     break
             else:
                 raise ValueError('List of discrete lookup values being used for determining length of '
@@ -332,11 +332,16 @@ class StringDataEncoding(DataEncoding):
                                  "This is an error since strings must be an integer numbers of bytes.")
             parsed_string = raw_string_buffer.read_as_bytes(strlen_bits).decode(self.encoding)
         elif self.termination_character is not None:
-            try:
-                tchar_byte_index = raw_string_buffer.index(self.termination_character)
-            except ValueError as exc:
+            # Search for the termination character at character boundaries only. A plain bytes.index() can match
+            # across two characters of a multi-byte encoding, e.g. b"\x00\x00" inside b"A\x00\x00\x00" (UTF-16LE).
+            tchar_width = len(self.termination_character)
+            tchar_byte_index = next(
+                (i for i in range(0, len(raw_string_buffer) - tchar_width + 1, tchar_width)
+                 if raw_string_buffer[i:i + tchar_width] == self.termination_character),
+                None)
+            if tchar_byte_index is None:
                 raise ValueError(f"Reached the end of the raw string buffer {raw_string_buffer} without finding the "
-                                 f"termination character {self.termination_character}") from exc
+                                 f"termination character {self.termination_character}")
             parsed_string = raw_string_buffer.read_as_bytes(tchar_byte_index * 8).decode(self.encoding)
         else:
             # Indicates there is no further parsing. The raw string value is the whole string value.
@@ -911,7 +916,8 @@ class BinaryDataEncoding(DataEncoding):
 
         if self.linear_adjuster is not None:
             len_bits = self.linear_adjuster(len_bits)
-        return len_bits
+        # Lookup values and calibrated reference values are floats but the size is used as a number of bits
+        return int(len_bits)
 
     def parse_value(self, packet: packets.CCSDSPacket) -> common.BinaryParameter:
         """Parse a value from packet data, possibly using previously parsed data items to inform parsing.
